@@ -1087,6 +1087,30 @@ class Interp:
             if ctor:
                 return ctor(self, fv, *args, **kwargs)
             obj = PObj(fv)
+            if any((isinstance(d, ast.Name) and d.id == "dataclass") or
+                   (isinstance(d, ast.Call) and isinstance(d.func, ast.Name) and d.func.id == "dataclass")
+                   for d in fv.node.decorator_list) and self.find_method(fv, "__init__") is None:
+                # @dataclass: the generated __init__ binds the annotated fields in order
+                names, defaults = [], {}
+                for n in fv.node.body:
+                    if isinstance(n, ast.AnnAssign) and isinstance(n.target, ast.Name):
+                        names.append(n.target.id)
+                        if n.value is not None:
+                            defaults[n.target.id] = n.value
+                if len(args) > len(names):
+                    self.throw("TypeError", "too many positional arguments")
+                vals = dict(zip(names, args))
+                for k, v in kwargs.items():
+                    if k not in names or k in vals:
+                        self.throw("TypeError", f"unexpected keyword argument {k!r}")
+                    vals[k] = v
+                for nm in names:
+                    if nm not in vals:
+                        if nm not in defaults:
+                            self.throw("TypeError", f"missing argument {nm!r}")
+                        vals[nm] = self.eval_in_module(fv.module, defaults[nm])
+                    obj.fields[nm] = vals[nm]
+                return obj
             init = self.find_method(fv, "__init__")
             if init is not None:
                 self.call(BoundMethod(obj, init), args, kwargs)
@@ -1512,7 +1536,8 @@ class Interp:
                         raise Undecided(f"{tag}: cannot havoc {nme}={fr.vars[nme]!r}; sidecar must provide havoc")
                     # unknown after an arbitrary number of iterations: unbind (a read before
                     # re-assignment makes the path undecided instead of using a stale value);
-                    # the sidecar's havoc callback may bind it again
+                    # the sidecar's havoc callback may bind it again (old value: ghost['loop_old_vars'])
+                    self.ghost.setdefault("loop_old_vars", {})[nme] = fr.vars[nme]
                     del fr.vars[nme]
                 else:
                     fr.vars[nme] = nv
